@@ -3,7 +3,7 @@
    All statements are about the definitions GENERATED from src/spdc/pm_type.rs and src/crystal/polarization_type.rs
    (Gen/ConfigTables.v) and the regex engine of Model/Regex.v interpreting the five generated regex literals. *)
 From Coq Require Import Ascii String List Bool.
-From SpdVerif Require Import Spec.ConfigSpec Gen.ConfigTables Model.Regex Model.Names.
+From SpdVerif Require Import Spec.ConfigSpec Gen.ConfigTables Model.Regex Model.Names Proofs.Regex.
 Import ListNotations.
 Local Open Scope string_scope.
 
@@ -100,4 +100,57 @@ Proof.
   repeat match goal with |- context [String.eqb ?a k] =>
     destruct (String.eqb_spec a k); [exfalso; apply H; subst; tauto |] end.
   reflexivity.
+Qed.
+
+(* ---- soundness of the parse, for EVERY string: whatever parses to a type ends with that type's signal and idler
+   letters (any letter case).  Read off the compiled regular expressions through the verified matcher. *)
+Definition letter_of (p : polarization) : ascii := match p with Ordinary => "o" | Extraordinary => "e" end%char.
+
+Definition ends2 (t : pm_type) (s : list ascii) : Prop :=
+  exists pre x y, s = (pre ++ [x; y])%list /\ lower x = letter_of (signal_polarization t) /\ lower y = letter_of (idler_polarization t).
+
+Lemma ends2_app t s1 s2 : ends2 t s2 -> ends2 t (s1 ++ s2)%list.
+Proof. intros (pre & x & y & -> & Hx & Hy). exists (s1 ++ pre)%list, x, y. rewrite app_assoc. auto. Qed.
+
+Lemma chr_ci_lower x c : cs_match true (CChar x) c = true -> lower c = lower x.
+Proof. cbn [cs_match]. intros H. apply Ascii.eqb_eq in H. auto. Qed.
+
+(* a regex of the shape  Eps . ((A1 A2 A3 A4 ((x) ((y) Eps))) . Eps)  only matches strings ending in x y *)
+Lemma tail2_inv a1 a2 a3 a4 x y w :
+  lang true (Cat Eps (Cat (Cat a1 (Cat a2 (Cat a3 (Cat a4 (Cat (Cat (Chr (CChar x)) Eps) (Cat (Cat (Chr (CChar y)) Eps) Eps)))))) Eps)) w ->
+  exists pre cx cy, w = (pre ++ [cx; cy])%list /\ lower cx = lower x /\ lower cy = lower y.
+Proof.
+  intros H.
+  apply lang_cat_inv in H. destruct H as (e1 & w1 & -> & He1 & H). apply lang_eps_inv in He1. subst e1. cbn [app].
+  apply lang_cat_inv in H. destruct H as (w2 & e2 & -> & H & He2). apply lang_eps_inv in He2. subst e2. rewrite app_nil_r.
+  apply lang_cat_inv in H. destruct H as (p1 & w3 & -> & _ & H).
+  apply lang_cat_inv in H. destruct H as (p2 & w4 & -> & _ & H).
+  apply lang_cat_inv in H. destruct H as (p3 & w5 & -> & _ & H).
+  apply lang_cat_inv in H. destruct H as (p4 & w6 & -> & _ & H).
+  apply lang_cat_inv in H. destruct H as (wx & w7 & -> & Hx & H).
+  apply lang_cat_inv in Hx. destruct Hx as (wx1 & ex & -> & Hx & Hex). apply lang_eps_inv in Hex. subst ex.
+  apply lang_chr_inv in Hx. destruct Hx as (cx & -> & Hcx).
+  apply lang_cat_inv in H. destruct H as (wy & e3 & -> & Hy & He3). apply lang_eps_inv in He3. subst e3.
+  apply lang_cat_inv in Hy. destruct Hy as (wy1 & ey & -> & Hy & Hey). apply lang_eps_inv in Hey. subst ey.
+  apply lang_chr_inv in Hy. destruct Hy as (cy & -> & Hcy).
+  exists (p1 ++ p2 ++ p3 ++ p4)%list, cx, cy. split.
+  - cbn [app]. rewrite <- !app_assoc. reflexivity.
+  - split; apply chr_ci_lower; assumption.
+Qed.
+
+Theorem pm_parse_sound s t : pm_from_str s = Some t ->
+  exists pre x y, list_ascii_of_string s = (pre ++ [x; y])%list /\
+    lower x = letter_of (signal_polarization t) /\ lower y = letter_of (idler_polarization t).
+Proof.
+  unfold pm_from_str, first_match. generalize (list_ascii_of_string s). intros w.
+  set (tbl := compile_table pm_regex_table). vm_compute in tbl. subst tbl. cbn [first_match_c c_ci c_re].
+  repeat match goal with
+  | |- (if matches true ?r w then Some ?v else _) = Some t -> _ =>
+      let H := fresh "H" in
+      destruct (matches true r w) eqn:H;
+      [ intros Ht; inversion Ht; subst t; apply matches_correct in H; apply tail2_inv in H;
+        destruct H as (pre & cx & cy & -> & Hx & Hy); exists pre, cx, cy; split; [reflexivity | split; assumption]
+      | clear H ]
+  end.
+  discriminate.
 Qed.
